@@ -35,3 +35,18 @@ func vfSharedWrites(fr *frame, args []value) value {
 	}
 	return len(fr.i.ex.track.Shared)
 }
+
+// checkAlloc: with an allocation limit installed (vfAllocLimit), every make
+// with a symbolic length carries the obligation len <= limit.
+func (ex *Exec) checkAlloc(fr *frame, n value) {
+	s, ok := n.(sym)
+	if !ok || ex.ios == nil || ex.ios.allocLim == nil {
+		if ok && ex.ios != nil {
+			_ = s
+		}
+		return
+	}
+	ex.impure("alloc")
+	ex.check("alloc", "allocation length is bounded by the installed limit (proportional to the file size)", ex.posOf(fr), ex.C.Le(s.t, ex.ios.allocLim))
+	ex.assume(ex.C.Le(s.t, ex.ios.allocLim), true)
+}
